@@ -2,6 +2,8 @@
 from vlib import hexs, unhex
 from props import C08 as B
 
+PROFILES = ["release", "debug"]
+
 RULE = ("binary: generated documents (nested containers, rgb blocks, strings whose payload bytes look like OPEN/CLOSE ids) x every "
         "Open position (skip_container / skip_value(OPEN)) and every value position (skip_value(id)) x schedules (1-byte, periodic, "
         "random, whole, all compositions for short documents) x capacities from the largest token up; plus raw byte strings and "
@@ -29,19 +31,19 @@ def count_close(allt, k):
 def run_binary(ctx):
     rng = ctx.rng
     docs = []
-    for _ in range(ctx.scale(160, 1600)):
+    for _ in range(ctx.scale(400, 2000)):
         body = B.rand_doc(rng)
         pre = B.rand_seq(rng, rng.randrange(0, 3))
         pre = [t for t in pre if t[0] not in ("O", "C")]
         toks = pre + [("T", 0x2d28), ("EQ",), ("O",)] + body + [("C",)] + [B.wf_fix(B.rand_token(rng), rng) for _ in range(rng.randrange(0, 3))]
         docs.append(("doc", b"".join(B.enc(t) for t in toks)))
     # strings made of open/close ids right inside and around containers
-    for _ in range(ctx.scale(60, 600)):
+    for _ in range(ctx.scale(120, 800)):
         s = b"".join(B.le(rng.choice([B.OPEN, B.CLOSE]), 2) for _ in range(rng.randrange(1, 6)))
         toks = [("O",), (rng.choice(["Q", "U"]), s), ("O",), ("F32", s[:4].ljust(4, b"\x03")), ("U64", int.from_bytes((s * 4)[:8], "little")), ("C",),
                 ("RGB", (0x00040003, 3, 4)), ("C",), ("T", 5)]
         docs.append(("looks", b"".join(B.enc(t) for t in toks)))
-    for _ in range(ctx.scale(80, 800)):
+    for _ in range(ctx.scale(200, 1000)):
         d = b"".join(B.enc(t) for t in [("O",)] + B.rand_doc(rng) + [("C",)])
         r = rng.random()
         if r < 0.5 and len(d) > 2:
@@ -105,6 +107,12 @@ def run_binary(ctx):
         elif after != exp_after:
             ctx.fail("skip-next-token", "%s: token after the skip is %s, token after the matching close is %s" % (who, after, exp_after),
                      [cases[j], tc[k]], [impl[base + j][:600]], exp_after)
+    pick = sorted(rng.sample(range(len(cases)), min(len(cases), ctx.scale(2500, 20000))))
+    dimpl, _ = ctx.correspond("skip_debug_build", [cases[j] for j in pick], profile="debug", model=False)
+    dbase = len(dimpl) - len(pick)
+    for n_, j in enumerate(pick):
+        if dimpl[dbase + n_] != impl[base + j]:
+            ctx.fail("debug-build", "debug build answers %s, release build %s" % (dimpl[dbase + n_][:200], impl[base + j][:200]), [cases[j]], [dimpl[dbase + n_][:600], impl[base + j][:600]])
     ctx.count("skips_with_matching_close", n_checked)
     ctx.count("skips_total", len(cases))
     ctx.count("all_compositions_positions", n_comp)
